@@ -423,8 +423,7 @@ fn slice_hcomp(a: &Args, t: &mut Trace, kind: u32) {
                 run_case(t, &id, 12, &cfg, &meta,
                     &|| Box::new(hlru::HTwoQSubj::new(mk_twoq_raw(size, RATIOS[rri], RATIOS[gri], hmode))),
                     &mut |step, snap| if step >= len { None } else {
-                        let res = hlru::named_resident(snap, 3, 3);
-                        Some(gen::trait_op(&mut r, &mut kg, &mut vg, &res))
+                        Some(gen::twoq_op(&mut r, &mut kg, &mut vg, &hlru::named_to_plain(snap, 3, 3)))
                     },
                     &tag);
             }
@@ -437,8 +436,7 @@ fn slice_hcomp(a: &Args, t: &mut Trace, kind: u32) {
                 run_case(t, &id, 13, &cfg, &meta,
                     &|| Box::new(hlru::HArcSubj::new(mk_arc_raw(size, hmode))),
                     &mut |step, snap| if step >= len { None } else {
-                        let res = hlru::named_resident(snap, 2, 4);
-                        Some(gen::trait_op(&mut r, &mut kg, &mut vg, &res))
+                        Some(gen::arc_op(&mut r, &mut kg, &mut vg, &hlru::named_to_plain(snap, 2, 4)))
                     },
                     &tag);
             }
@@ -453,8 +451,7 @@ fn slice_hcomp(a: &Args, t: &mut Trace, kind: u32) {
                 run_case(t, &id, 14, &[], &meta,
                     &|| Box::new(hlru::HWTinySubj::new(lfu::mk_wtiny(w as usize, prot as usize, prob as usize, samples as usize, FPS[fpi], khmode, hmode))),
                     &mut |step, snap| if step >= len { None } else {
-                        let res = hlru::named_resident(snap, 3, 3);
-                        if r.chance(1, 25) { Some(vec![25]) } else { Some(gen::trait_op(&mut r, &mut kg, &mut vg, &res)) }
+                        Some(gen::wtiny_op(&mut r, &mut kg, &mut vg, &hlru::named_to_plain(snap, 3, 3)))
                     },
                     &tag);
             }
@@ -490,7 +487,7 @@ fn slice_hlru(a: &Args, t: &mut Trace) {
                 if step >= len {
                     return None;
                 }
-                // the alphabet of the heap model: everything but the iterators and Debug
+                // the alphabet of the heap model: everything but Debug
                 let fake: Ints = {
                     let res = hlru::resident(snap);
                     let mut v = vec![cap as i128, res.len() as i128];
@@ -502,7 +499,7 @@ fn slice_hlru(a: &Args, t: &mut Trace) {
                 };
                 loop {
                     let op = gen::lru_op(&mut r, &mut kg, &mut vg, &fake, cap);
-                    if !matches!(op[0], 24 | 26) {
+                    if op[0] != 26 {
                         return Some(op);
                     }
                 }
